@@ -593,9 +593,12 @@ def malformed_case(rng, res, text, label):
   res.count("malformed:" + ("returned" if outcome[0] == "ok" else type(outcome[1]).__name__))
   problems = []
   check_policy_trace(policy, imported, problems, invocation_clause=False)
+  # a module may be imported only for a (module, symbol) request the policy approved (a mutated document can
+  # name an approved pair such as os:str next to the denied os:system)
+  approved_modules = {ev[1] for ev in policy.events if ev[0] == "import?" and ev[3]}
   for m in imported:
-    if m in ("os", "subprocess"):
-      problems.append(f"denied module {m} was imported")
+    if m in ("os", "subprocess", "builtins") and m not in approved_modules:
+      problems.append(f"module {m} was imported although every request for it was denied")
   if outcome[0] == "ok":
     for x in all_objects(outcome[1]) if not isinstance(outcome[1], (int, str, float, type(None))) else []:
       import os, subprocess
